@@ -121,6 +121,8 @@ inductive Err where
 
 abbrev R := Except Err
 
+deriving instance DecidableEq for Except
+
 /-! ### numbers: `strconv.ParseInt/ParseUint/ParseFloat` on the literals that occur -/
 
 def digit? (c : Char) : Option Nat :=
@@ -600,10 +602,11 @@ def lowerMap (i : Info) : JM → JM
       | none =>
         match i.mapField? with
         | some mi => .cons k (lowerVal mi v) (lowerMap i t)
-        | none =>
-          match v with
-          | .obj vv => .cons k (.obj (lowerMap i vv)) (lowerMap i t)
-          | _ => .cons k v (lowerMap i t)
+        | none => .cons k (lowerUnknown i v) (lowerMap i t)
+/-- the value under a key that names no field: a nested map is walked with the same info, anything else is kept. -/
+def lowerUnknown (i : Info) : J → J
+  | .obj vv => .obj (lowerMap i vv)
+  | v => v
 end
 
 /-! ### the loaders -/
